@@ -737,6 +737,12 @@ func (e *Env) call(n *ECall) (tv, error) {
 		id := e.sc.sorts.ifaceID(gt)
 		e.g.box(gt, e.sc.sorts.zero(gt))
 		return tv{t: fmt.Sprintf("(unbox_%d %s)", id, as.t), ty: goT(gt)}, nil
+	case "fresherr":
+		as, err := args()
+		if err != nil {
+			return tv{}, err
+		}
+		return tv{t: fmt.Sprintf("(fresh_err %s)", as[0].t), ty: stBool}, nil
 	case "zeroval":
 		ts, ok := n.Args[0].(*EStr)
 		if !ok {
@@ -789,8 +795,34 @@ func (e *Env) specCall(sf *SpecFunc, args []tv) (tv, error) {
 		}
 		as = append(as, a.t)
 	}
+	// Heap arguments: a version that agrees with an earlier one on all objects older than the function entry
+	// is replaced by that earlier version when every reference argument is such an old object (frame rule for
+	// heap-dependent spec functions; relies on the closed-heap facts: old objects only reach old objects).
+	allOld := []string{}
+	if e.heapParams == nil && e.g != nil && e.g.oldFrontier != "" {
+		for i, a := range args {
+			switch e.sortOfS(info.paramTypes[i]) {
+			case "Ref":
+				allOld = append(allOld, fmt.Sprintf("(< (rb %s) %s)", as[i], e.g.oldFrontier))
+			case "Slice":
+				allOld = append(allOld, fmt.Sprintf("(< (rb (sarr %s)) %s)", as[i], e.g.oldFrontier))
+			}
+			_ = a
+		}
+	}
 	for _, tag := range info.tags {
-		as = append(as, e.memTag(tag))
+		cur := e.memTag(tag)
+		if e.heapParams == nil && !strings.HasPrefix(tag, "G!") {
+			if base := e.sc.oldBase(cur); base != cur {
+				if len(allOld) == 0 {
+					cur = base
+				} else {
+					cur = fmt.Sprintf("(ite (and %s) %s %s)", strings.Join(allOld, " "), base, cur)
+				}
+				e.g.assumptions["frame rule for heap-dependent spec functions: stores to objects allocated by the function do not change their value on pre-existing arguments"] = true
+			}
+		}
+		as = append(as, cur)
 	}
 	if len(as) == 0 {
 		return tv{t: info.smtName, ty: info.ret}, nil
